@@ -30,4 +30,9 @@ def timerChain : St :=
   { tasks := [{ kind := .rt, prog := [.sleepUntil 5, .wake 0] }, { kind := .loc, prog := [.wait 0, .sleep 2] }],
     conds := [{ coop := false }] }
 
+/-- three tasks (runtime, local, runtime) awaiting the same Notify -/
+def waitersState : St :=
+  { tasks := [{ kind := .rt, prog := [.wait 0] }, { kind := .loc, prog := [.wait 0] }, { kind := .rt, prog := [.wait 0] }],
+    conds := [{ coop := false, cap1 := true }] }
+
 end Exec
